@@ -15,17 +15,17 @@ import (
 )
 
 type Solver struct {
-	kind    string // "z3", "z3-new", "cvc5"
-	cmd     *exec.Cmd
-	in      io.WriteCloser
-	out     *bufio.Reader
-	Queries int
-	Time    time.Duration
-	Errors  []string
+	kind              string // "z3", "z3-new", "cvc5"
+	cmd               *exec.Cmd
+	in                io.WriteCloser
+	out               *bufio.Reader
+	Queries           int
+	Time              time.Duration
+	Errors            []string
 	SendTime, AskTime time.Duration
-	SentBytes int64
-	dead    bool
-	logw    io.Writer
+	SentBytes         int64
+	dead              bool
+	logw              io.Writer
 }
 
 func solverArgs(kind string, timeoutMs int) (string, []string) {
